@@ -22,7 +22,7 @@ type c06 struct{}
 func init() { register(c06{}) }
 
 func (c06) ID() string           { return "C06" }
-func (c06) Runs(tier string) int { return tierLen(tier, 2000, 24000) }
+func (c06) Runs(tier string) int { return tierLen(tier, 5000, 30000) }
 
 func (c06) Gen(r *kern.Rng, tier string, idx int) *Trace {
 	maxLen := tierLen(tier, 200000, 1<<20)
@@ -348,7 +348,7 @@ type c07 struct{}
 func init() { register(c07{}) }
 
 func (c07) ID() string           { return "C07" }
-func (c07) Runs(tier string) int { return tierLen(tier, 96, 2400) }
+func (c07) Runs(tier string) int { return tierLen(tier, 96, 480) }
 
 func (c07) Gen(r *kern.Rng, tier string, idx int) *Trace {
 	pkg := r.PickS("gzip", "zlib")
@@ -605,7 +605,7 @@ type c08 struct{}
 func init() { register(c08{}) }
 
 func (c08) ID() string           { return "C08" }
-func (c08) Runs(tier string) int { return tierLen(tier, 1500, 20000) }
+func (c08) Runs(tier string) int { return tierLen(tier, 6000, 40000) }
 
 func (c08) Gen(r *kern.Rng, tier string, idx int) *Trace {
 	sc := &scen.RScen{Pkg: "gzip"}
